@@ -246,7 +246,9 @@ def mk_fn(name, world, side_effect=None):
 # ----------------------------------------------------------------------------- shapes
 class Shape:
     """n nodes 0..n-1 (index order is a topological order); edges (i, j, kind) kind 'a' argument / 'd' add_dependency;
-    roles[j] in {'call','store','src'}; out: node index or None.
+    roles[j] in {'call','store','src','lit','slit'}; out: node index or None.
+    'lit' is a plain plan.lit(...) node (it can have add_dependency predecessors and be an argument or dependency of later
+    nodes); 'slit' is a literal registered with registry.add (its value is written to / read back from its store).
     A 'src' with incoming 'd' edges is a dependent source: its generator is the (single) predecessor call, whose
     function rewrites the source store as a side effect."""
 
@@ -254,10 +256,10 @@ class Shape:
         self.name, self.n, self.edges, self.roles, self.out = name, n, [tuple(e) for e in edges], list(roles), out
         self.preds = {j: [(i, k) for (i, jj, k) in self.edges if jj == j] for j in range(n)}
         self.succs = {i: [(j, k) for (ii, j, k) in self.edges if ii == i] for i in range(n)}
-        self.registered = [r in ("store", "src") for r in roles]
+        self.registered = [r in ("store", "src", "slit") for r in roles]
         for (i, j, k) in self.edges:
             assert i < j and k in "ad"
-            assert not (roles[j] == "src" and k == "a")
+            assert not (roles[j] in ("src", "lit", "slit") and k == "a")  # only add_dependency edges lead into sources / literals
 
     def near(self, n):
         """Registered ancestors of n reachable through unregistered intermediates (any edge kind)."""
@@ -292,11 +294,14 @@ def build(shape, world, P, TT, K=None, normalise=False):
     b = Built()
     b.plan, b.reg = uberjob.Plan(), uberjob.Registry()
     b.nodes, b.stores, b.scratch = [], [], []
-    gens = {}  # dependent source index -> generator predecessor
+    gens = {}  # dependent source index -> generator call (first predecessor; through a chain of dependent sources: their generator)
     for j in range(shape.n):
         if shape.roles[j] == "src" and shape.preds[j]:
-            gens[j] = shape.preds[j][0][0]
-    genby = {g: s for s, g in gens.items()}
+            g_ = shape.preds[j][0][0]
+            gens[j] = gens.get(g_, g_) if shape.roles[g_] == "src" else g_
+    genby = {}  # generator call -> the dependent sources it rewrites, in index order
+    for s_, g_ in sorted(gens.items()):
+        genby.setdefault(g_, []).append(s_)
     for j in range(shape.n):
         role = shape.roles[j]
         args = [i for i, k in shape.preds[j] if k == "a"]
@@ -308,19 +313,31 @@ def build(shape, world, P, TT, K=None, normalise=False):
             st = LStore(j, P[j], TT[j], sv if (K is None or K[j] or j not in gens) else ("garbage", j), world, normalise)
             node = b.reg.source(b.plan, st)
             b.scratch.append(("norm", sv) if normalise else sv)
+        elif role in ("lit", "slit"):
+            sv = ("litval", j)
+            node = b.plan.lit(sv)
+            st = None
+            if role == "slit":
+                st = LStore(j, P[j], TT[j], sv if (K is None or K[j]) else ("garbage", j), world, normalise)
+                b.reg.add(node, st)
+                b.scratch.append(("norm", sv) if normalise else sv)
+            else:
+                b.scratch.append(sv)
+            b.nodes.append(node)
+            b.stores.append(st)
+            continue
         else:
             argvals = tuple(b.scratch[i] for i in args)
             sv = (j,) + argvals
             side = None
             if j in genby:
-                s_idx = genby[j]
-
-                def side(a, s_idx=s_idx):
-                    # the generator call rewrites the dependent source's store
-                    tgt = b.stores[s_idx]
-                    tgt.val = ("gen", s_idx) + a
-                    tgt.present = True
-                    tgt.t = world.tick()
+                def side(a, targets=tuple(genby[j])):
+                    # the generator call rewrites the stores of its dependent sources (in dependency order)
+                    for s_idx in targets:
+                        tgt = b.stores[s_idx]
+                        tgt.val = ("gen", s_idx) + a
+                        tgt.present = True
+                        tgt.t = world.tick()
 
             node = b.plan.call(mk_fn(j, world, side), *[b.nodes[i] for i in args])
             st = None
@@ -381,7 +398,7 @@ def expected_events(shape, S, out):
     reads = set()
     todo = []
     for n in range(shape.n):
-        if shape.roles[n] == "store" and S[n]:
+        if shape.roles[n] in ("store", "slit") and S[n]:
             todo.append(n)
         if shape.roles[n] == "src" and S[n]:
             # Barrier carries the source's predecessors
@@ -404,21 +421,38 @@ def expected_events(shape, S, out):
                     reads.add(p)
             else:
                 todo.append(p)
-    calls = sorted(need)
-    writes = sorted(n for n in range(shape.n) if shape.roles[n] == "store" and S[n])
+    calls = sorted(n for n in need if shape.roles[n] in ("call", "store"))
+    writes = sorted(n for n in range(shape.n) if shape.roles[n] in ("store", "slit") and S[n])
     return calls, writes, sorted(reads)
+
+
+def consistent(shape, P, TT):
+    """States a history can reach: a dependent source is rewritten by the same generator call as (and after) the dependent
+    source it depends on, so when both are present the downstream one is the newer."""
+    for n in range(shape.n):
+        if shape.roles[n] == "src":
+            for p_, _k in shape.preds[n]:
+                if shape.roles[p_] == "src" and shape.preds[p_] and P[n] and P[p_] and not (TT[p_] < TT[n]):
+                    return False
+    return True
 
 
 def missing_needed(shape, P, S, calls, reads):
     """Reads that must fail: a missing value this run does not (re)build first.  A stored value is rebuilt when out of
     date; a dependent source only when its generator (first predecessor) is itself executed in this run."""
     out = []
+    def generator(n):
+        g_ = shape.preds[n][0][0]
+        while shape.roles[g_] == "src" and shape.preds[g_]:
+            g_ = shape.preds[g_][0][0]
+        return g_
+
     for n in reads:
         if P[n]:
             continue
-        if shape.roles[n] == "store" and S[n]:
+        if shape.roles[n] in ("store", "slit") and S[n]:
             continue
-        if shape.roles[n] == "src" and shape.preds[n] and S[n] and shape.preds[n][0][0] in calls:
+        if shape.roles[n] == "src" and shape.preds[n] and S[n] and generator(n) in calls:
             continue
         out.append(n)
     return out
